@@ -64,8 +64,8 @@ def lake_build():
     return p.returncode == 0, p.stdout, time.time() - t0
 
 
-_AX_RE = re.compile(r"'([^']+)' depends on axioms: \[([^\]]*)\]")
-_NOAX_RE = re.compile(r"'([^']+)' does not depend on any axioms")
+_AX_RE = re.compile(r"'(\S+)' depends on axioms: \[([^\]]*)\]")
+_NOAX_RE = re.compile(r"'(\S+)' does not depend on any axioms")
 
 
 def audit(prop_id):
@@ -218,6 +218,165 @@ class Result:
     def nontriv(self, key):
         if len(self.nontrivial) < 2_000_000:
             self.nontrivial.add(key)
+
+
+# ----------------------------------------------------------------------------------------------
+# oracle failures: self-contained payloads, shrinking, replay
+#
+# An oracle failure is `(what, payload)`.  The payload is the *case* (everything needed to run that one oracle check
+# again on the real code: "scenario", "input" = the lines or the operation history, "config", the queried ids and
+# arguments; "parallel" names lists that run parallel to "input", e.g. the generator's record of every line) plus
+# "kind" (the name of the oracle that failed), optionally "error" (the exception name, for the 'it raised' oracles)
+# and "details" (what was observed / expected).  A property module offers `judge(case) -> Result`, which rebuilds the
+# case and runs the same oracle functions as `run` on a fresh Result; shrinking and replay both go through it.
+
+def fail(res, case, kind, what, error=None, **details):
+    """record an oracle failure of the named kind on `case`"""
+    p = dict(case, kind=kind, details=details)
+    if error is not None:
+        p["error"] = error
+    res.oracle_failures.append((what, p))
+
+
+def same_failure(p, q):
+    return p.get("kind") == q.get("kind") and p.get("error") == q.get("error")
+
+
+def shrink_lines(lines, still_fails, budget=200):
+    """Delta debugging over a list (of lines, or of the steps of a history): remove chunks (halves, quarters, ...),
+    then single items, as long as `still_fails(candidate) -> bool` - which re-runs the oracle on the real code - says
+    the candidate still fails.  At most `budget` calls of still_fails; the empty list is never tried.  Returns the
+    smallest failing list found (the input itself when nothing could be removed)."""
+    calls = [0]
+
+    def test(cand):
+        if calls[0] >= budget:
+            return False
+        calls[0] += 1
+        try:
+            return bool(still_fails(cand))
+        except Infra:
+            raise
+        except Exception:
+            return False            # a candidate the oracle cannot even be run on is not a smaller failing case
+
+    cur = list(lines)
+    n = 2
+    while len(cur) >= 2 and calls[0] < budget:
+        size = -(-len(cur) // n)
+        for i in range(0, len(cur), size):
+            cand = cur[:i] + cur[i + size:]
+            if cand and test(cand):
+                cur = cand
+                n = max(n - 1, 2)
+                break
+        else:
+            if size == 1:
+                break
+            n = min(len(cur), n * 2)
+    return cur
+
+
+def _jsonable(x):
+    return json.loads(json.dumps(x, default=str))
+
+
+def shrink_first_failure(res, judge, budget=200):
+    """Shrink the FIRST oracle failure of a run (the one vcheck writes as the replay): its payload then carries "input"
+    (shrunk), "input_unshrunk" and "shrunk": true.  A candidate counts only if the oracle of the same kind fails on it.
+    Every other failure, and a first failure without a list under "input", is marked "shrunk": false."""
+    for _, p in res.oracle_failures[1:]:
+        p.setdefault("shrunk", False)
+    if not res.oracle_failures:
+        return
+    what, p = res.oracle_failures[0]
+    if "shrunk" in p:
+        return
+    p = _jsonable(p)                       # what the replay file will hold is what the shrinker works on
+    res.oracle_failures[0] = (what, p)
+    p["shrunk"] = False
+    if not isinstance(p.get("input"), list) or len(p["input"]) < 2 or p.get("no_shrink"):
+        return
+    par = [k for k in p.get("parallel", []) if isinstance(p.get(k), list) and len(p[k]) == len(p["input"])]
+    items = list(zip(p["input"], *[p[k] for k in par]))
+    best = [None]
+    calls = [0]
+
+    def sub_case(sub):
+        q = {k: v for k, v in p.items() if k not in ("details", "shrunk")}
+        q["input"] = [x[0] for x in sub]
+        for j, k in enumerate(par):
+            q[k] = [x[j + 1] for x in sub]
+        return q
+
+    def still_fails(sub):
+        calls[0] += 1
+        for w, fp in judge(sub_case(sub)).oracle_failures:
+            if same_failure(fp, p):
+                best[0] = (w, fp)
+                return True
+        return False
+
+    small = shrink_lines(items, still_fails, budget)
+    p["shrunk"] = True
+    p["shrink"] = {"from": len(items), "to": len(small), "oracle_calls": calls[0]}
+    if best[0] is not None and len(small) < len(items):
+        w, fp = best[0]
+        q = _jsonable(fp)
+        q.update(shrunk=True, shrink=p["shrink"], input_unshrunk=p["input"], what_unshrunk=what,
+                 details_unshrunk=p.get("details"))
+        for k in par:
+            q[k + "_unshrunk"] = p[k]
+        res.oracle_failures[0] = (w, q)
+    else:
+        p["input_unshrunk"] = list(p["input"])
+
+
+def _show(v, width=400):
+    s = json.dumps(v, ensure_ascii=True, default=str) if not isinstance(v, str) else repr(v)
+    return s if len(s) <= width else s[:width] + " ...(%d chars)" % len(s)
+
+
+def replay_failure(prop_id, payload, judge):
+    """`./check <ID> --replay <file>` for an oracle failure: run `judge` on the recorded case, print a short account,
+    and report the failure again iff the oracle of the recorded kind still fails (known findings stay known)."""
+    res = Result(prop_id)
+    p = payload.get("input")
+    if not isinstance(p, dict) or "kind" not in p:
+        print("replay: %s holds no replayable oracle failure (%s)" % (prop_id, payload.get("kind")))
+        return res
+    print("replay: property %s, oracle %r, scenario %r" % (prop_id, p["kind"], p.get("scenario")))
+    print("replay: recorded: %s" % payload.get("what"))
+    skip = {"kind", "scenario", "input", "details", "parallel", "shrunk", "shrink", "error", "no_shrink"}
+    for k in sorted(p):
+        if k not in skip and not k.endswith("_unshrunk") and k not in p.get("parallel", []):
+            print("replay:   %s = %s" % (k, _show(p[k])))
+    inp = p.get("input")
+    if isinstance(inp, list):
+        was = p.get("input_unshrunk")
+        print("replay:   input: %d item(s)%s" % (len(inp), (" (%d before shrinking)" % len(was)) if p.get("shrunk") and was else ""))
+        for x in inp:
+            print("replay:     %s" % _show(x))
+    elif inp is not None:
+        print("replay:   input = %s" % _show(inp))
+    if p.get("details"):
+        print("replay:   recorded details: %s" % _show(p["details"], 1200))
+    got = judge(p)
+    res.evaluations = got.evaluations
+    same = [(w, fp) for w, fp in got.oracle_failures if same_failure(fp, p)]
+    other = [(w, fp) for w, fp in got.oracle_failures if not same_failure(fp, p)]
+    for key, ex in got.known_hits.items():
+        res.known_hits.setdefault(key, ex)
+        print("replay:   matches the known finding %s (not a violation)" % key)
+    for w, fp in same[:3]:
+        print("replay:   now: %s" % w)
+        print("replay:   observed/expected now: %s" % _show(fp.get("details"), 1200))
+    for w, fp in other[:3]:
+        print("replay:   note: another oracle (%s) fails on this case: %s" % (fp.get("kind"), w))
+    for w, fp in same:
+        res.oracle_failures.append((w, dict(_jsonable(fp), shrunk=False, no_shrink=True)))
+    print("replay: verdict: oracle %r %s on this tree (%s)" % (p["kind"], "fails" if same else "holds", repo_dir()))
+    return res
 
 
 def write_replay(prop_id, kind, payload):
